@@ -99,7 +99,7 @@ PROPS = {
         level_text='Theorems C16_*: get(set n v) n = v, get after remove = None, set keeps the other attributes, lookups are ASCII case-insensitive, for every tag and name. Partial: agreement of the attribute outline with the '
                    'WHATWG attribute grammar for every chunking is decided by correspondence (all getters, before and after edits) and an independent reference attribute parser (oracle_c16).',
         level_note='Trusted as C07.'),
-    'C01': dict(coq=['props/C01.vo'], families=[('l1', 1200, 30000), ('l2match', 600, 15000), ('grp-l1', 400, 8000), ('utf8', 400, 8000)], projections=['out_bytes'], oracle=oracle_c01,
+    'C01': dict(coq=['props/C01.vo'], families=[('l1', 1200, 30000), ('l2match', 600, 15000), ('grp-l1', 400, 8000), ('utf8', 400, 8000), ('enc', 400, 8000)], projections=['out_bytes'], oracle=oracle_c01,
         technique=TILING,
         level_text='Theorem C01_pass_through: for EVERY observer transform controller (arbitrary capture-flag policy at every tag = every set of observing handlers and every '
                    'lexer/scanner switching pattern), configuration (strict or not, any limits), byte string and split into writes: if all calls succeed, sink bytes = bytes written; '
@@ -114,7 +114,7 @@ PROPS = {
                    'C11_flags_are_independent. Partial: stated for the first failing write() (end() is covered by the correspondence run and oracle); handler-mutating configurations, '
                    'bail-out handler ordering/once-only are checked by correspondence + oracle.',
         level_note='Trusted as C01. Failure injection in the harness: k-th handler invocation fails / memory limit sweep; correspondence on output bytes and sink call sequence.'),
-    'C15': dict(coq=['props/C15.vo'], families=[('l1', 600, 20000), ('l2mixed', 600, 20000), ('l1fail', 300, 5000), ('mem', 300, 5000)], projections=['results'], oracle=oracle_c15, classify=classify_c15,
+    'C15': dict(coq=['props/C15.vo'], families=[('l1', 600, 20000), ('l2mixed', 600, 20000), ('l1fail', 300, 5000), ('mem', 300, 5000), ('enc', 500, 10000)], projections=['results'], oracle=oracle_c15, classify=classify_c15,
         technique=TILING + '; harness built with debug assertions and overflow checks, every call under catch_unwind',
         level_text='Theorem C15_no_offset_panic: in the model every slice of the chunk and the end-of-chunk cursor rewind is a checked operation; for every observer controller, input and chunking '
                    'they never fail (the debug_assert! in Bytes::slice and the usize underflow in break_on_end_of_input are unreachable); C15_wrap32_in_range (i32 arithmetic of nth-child). '
